@@ -31,6 +31,16 @@ def make_dataset(conv, shape, variant):
     from emsarray.conventions.ugrid import UGrid
     if conv == 'cf1d':
         ny, nx = shape
+        if variant in ('explicit', 'explicit-topology'):
+            # coordinate variables without identifying attributes: the caller names them
+            ds = builders.cf1d(ny, nx, ydim='a', xdim='b', lat_name='northing', lon_name='easting', as_coords=False,
+                               lat_attrs=dict(units='m', standard_name='projection_y_coordinate'),
+                               lon_attrs=dict(units='m', standard_name='projection_x_coordinate'),
+                               data_vars={'v': (('b', 'a'), numpy.zeros((nx, ny)))})
+            if variant == 'explicit':
+                return ds, CFGrid1D(ds, latitude='northing', longitude='easting'), {'face': (ny, nx)}
+            from emsarray.conventions.grid import CFGrid1DTopology
+            return ds, CFGrid1D(ds, topology=CFGrid1DTopology(ds, latitude='northing', longitude='easting')), {'face': (ny, nx)}
         ydim, xdim = {'yx': ('y', 'x'), 'index': ('lat', 'lon'), 'swapnames': ('x', 'y')}[variant]
         ds = builders.cf1d(ny, nx, ydim=ydim, xdim=xdim,
                            data_vars={'v': ((xdim, ydim), numpy.zeros((nx, ny)))})
@@ -170,7 +180,7 @@ def cases(tier):
     shapes = list(itertools.product(range(1, top + 1), repeat=2))
     configs = []
     for shp in shapes:
-        for variant in ('yx', 'index', 'swapnames'):
+        for variant in ('yx', 'index', 'swapnames', 'explicit', 'explicit-topology'):
             configs.append(('cf1d', shp, variant, ['face']))
         for variant in ('coords', 'plainvars'):
             configs.append(('cf2d', shp, variant, ['face']))
